@@ -110,26 +110,40 @@ theorem flatten_split {V : Type} : ∀ (segs : List (Seg V)) (pre : List Piece) 
 
 def foldsOf (c : Cls) (g : List Piece) : List Word := g.map (fun p => c.fold p.text)
 
+/-- an operand as written in the text: a run of words that reads as a stored name of the license, or —
+    for a license the table does not know — a run of words none of which occurs in any stored name
+    and which spell its key -/
+inductive OperandSeg (c : Cls) (T : Table) (s : Sym) : Seg TVal → Prop
+  | known (g : List Piece) : g ≠ [] → OwnedByV c T (foldsOf c g) (.sym s) → OperandSeg c T s (g, some (.sym s))
+  | unknown (g : List Piece) : g ≠ [] → (∀ p ∈ g, ∀ a ∈ addsOf c T, c.fold p.text ∉ wordsOf c a.1) →
+      normKey c (joinStr [SPACE] (g.map (·.text))) = some s.key → s.exc = false → OperandSeg c T s (g, none)
+
 /-- the segments one token of a skeleton may be written as -/
 inductive SegFor (c : Cls) (T : Table) : BP.Tok Atom → List (Seg TVal) → Prop
   | and (p : Piece) : c.fold p.text = sAND → SegFor c T .and [([p], some (.kw .and))]
   | or (p : Piece) : c.fold p.text = sOR → SegFor c T .or [([p], some (.kw .or))]
   | lpar (p : Piece) : c.fold p.text = sLPAR → SegFor c T .lpar [([p], some (.kw .lpar))]
   | rpar (p : Piece) : c.fold p.text = sRPAR → SegFor c T .rpar [([p], some (.kw .rpar))]
-  | lic (s : Sym) (g : List Piece) : g ≠ [] → OwnedByV c T (foldsOf c g) (.sym s) →
-      SegFor c T (.sym (.lic s)) [(g, some (.sym s))]
-  | withE (l e : Sym) (gl : List Piece) (pw : Piece) (ge : List Piece) : gl ≠ [] → ge ≠ [] →
-      OwnedByV c T (foldsOf c gl) (.sym l) → c.fold pw.text = sWITH → OwnedByV c T (foldsOf c ge) (.sym e) →
-      SegFor c T (.sym (.withE l e)) [(gl, some (.sym l)), ([pw], some (.kw .with)), (ge, some (.sym e))]
+  | lic (s : Sym) (sg : Seg TVal) : OperandSeg c T s sg → SegFor c T (.sym (.lic s)) [sg]
+  | withE (l e : Sym) (sgl : Seg TVal) (pw : Piece) (sge : Seg TVal) :
+      OperandSeg c T l sgl → c.fold pw.text = sWITH → OperandSeg c T e sge →
+      SegFor c T (.sym (.withE l e)) [sgl, ([pw], some (.kw .with)), sge]
 
 inductive SegsFor (c : Cls) (T : Table) : List (BP.Tok Atom) → List (Seg TVal) → Prop
   | nil : SegsFor c T [] []
   | cons {t ts sgs rest} : SegFor c T t sgs → SegsFor c T ts rest → SegsFor c T (t :: ts) (sgs ++ rest)
 
-/-- what each segment of a spelled skeleton is: a keyword on one word, or a name owned by a license -/
+/-- what each segment of a spelled skeleton is: a keyword on one word, a name owned by a license, or a
+    run of words that occur in no stored name -/
 def SegShape (c : Cls) (T : Table) (sg : Seg TVal) : Prop :=
   (∃ p k, sg = ([p], some (.kw k)) ∧ c.fold p.text = k.spelling) ∨
-  (∃ g s, sg = (g, some (.sym s)) ∧ g ≠ [] ∧ OwnedByV c T (foldsOf c g) (.sym s))
+  (∃ g s, sg = (g, some (.sym s)) ∧ g ≠ [] ∧ OwnedByV c T (foldsOf c g) (.sym s)) ∨
+  (∃ g, sg = (g, none) ∧ g ≠ [] ∧ ∀ p ∈ g, ∀ a ∈ addsOf c T, c.fold p.text ∉ wordsOf c a.1)
+
+theorem operandSeg_shape (c : Cls) (T : Table) (s : Sym) (sg : Seg TVal) (h : OperandSeg c T s sg) : SegShape c T sg := by
+  cases h with
+  | known g hg ho => exact Or.inr (Or.inl ⟨g, s, rfl, hg, ho⟩)
+  | unknown g hg hu _ _ => exact Or.inr (Or.inr ⟨g, rfl, hg, hu⟩)
 
 theorem segFor_shape (c : Cls) (T : Table) (t : BP.Tok Atom) (sgs : List (Seg TVal)) (h : SegFor c T t sgs) :
     ∀ sg ∈ sgs, SegShape c T sg := by
@@ -138,14 +152,14 @@ theorem segFor_shape (c : Cls) (T : Table) (t : BP.Tok Atom) (sgs : List (Seg TV
   | or p hp => intro sg hsg; simp at hsg; subst hsg; exact Or.inl ⟨p, .or, rfl, hp⟩
   | lpar p hp => intro sg hsg; simp at hsg; subst hsg; exact Or.inl ⟨p, .lpar, rfl, hp⟩
   | rpar p hp => intro sg hsg; simp at hsg; subst hsg; exact Or.inl ⟨p, .rpar, rfl, hp⟩
-  | lic s g hg ho => intro sg hsg; simp at hsg; subst hsg; exact Or.inr ⟨g, s, rfl, hg, ho⟩
-  | withE l e gl pw ge hgl hge hol hpw hoe =>
+  | lic s sg0 ho => intro sg hsg; simp at hsg; subst hsg; exact operandSeg_shape c T s _ ho
+  | withE l e sgl pw sge hol hpw hoe =>
     intro sg hsg
     simp at hsg
     rcases hsg with rfl | rfl | rfl
-    · exact Or.inr ⟨gl, l, rfl, hgl, hol⟩
+    · exact operandSeg_shape c T l _ hol
     · exact Or.inl ⟨pw, .with, rfl, hpw⟩
-    · exact Or.inr ⟨ge, e, rfl, hge, hoe⟩
+    · exact operandSeg_shape c T e _ hoe
 
 theorem segsFor_shape (c : Cls) (T : Table) {ts : List (BP.Tok Atom)} {segs : List (Seg TVal)} (h : SegsFor c T ts segs) :
     ∀ sg ∈ segs, SegShape c T sg := by
@@ -157,25 +171,16 @@ theorem segsFor_shape (c : Cls) (T : Table) {ts : List (BP.Tok Atom)} {segs : Li
     · exact segFor_shape c T _ _ h1 sg h
     · exact ih sg h
 
-def isNameSeg (sg : Seg TVal) : Bool := match sg.2 with | some (.sym _) => true | _ => false
+/-- an operand segment (a name or a run of unknown words), as opposed to a keyword -/
+def isNameSeg (sg : Seg TVal) : Bool := match sg.2 with | some (.kw _) => false | _ => true
 
-/-- no two name segments follow each other directly -/
+theorem operandSeg_isName (c : Cls) (T : Table) (s : Sym) (sg : Seg TVal) (h : OperandSeg c T s sg) : isNameSeg sg = true := by
+  cases h <;> rfl
+
+/-- no two operand segments follow each other directly -/
 def AltOK : List (Seg TVal) → Prop
   | a :: b :: r => ¬ (isNameSeg a = true ∧ isNameSeg b = true) ∧ AltOK (b :: r)
   | _ => True
-
-theorem altOK_append_single_kw (a : List (Seg TVal)) (k : Seg TVal) (b : List (Seg TVal)) (hk : isNameSeg k = false)
-    (ha : AltOK (a ++ [k])) (hb : AltOK (k :: b)) : AltOK (a ++ k :: b) := by
-  induction a with
-  | nil => exact hb
-  | cons x a ih =>
-    cases a with
-    | nil => exact ⟨by simp [hk], hb⟩
-    | cons y a' => exact ⟨ha.1, ih ha.2⟩
-
-theorem segFor_first_last (c : Cls) (T : Table) (t : BP.Tok Atom) (sgs : List (Seg TVal)) (h : SegFor c T t sgs) :
-    AltOK sgs ∧ sgs ≠ [] ∧ (isSymTok t = false → ∀ sg ∈ sgs, isNameSeg sg = false) := by
-  cases h <;> simp [AltOK, isNameSeg, isSymTok]
 
 theorem altOK_cons_kw (k : Seg TVal) (l : List (Seg TVal)) (hk : isNameSeg k = false) (h : AltOK l) : AltOK (k :: l) := by
   cases l with
@@ -211,9 +216,9 @@ theorem segsFor_alt (c : Cls) (T : Table) : ∀ {ts : List (BP.Tok Atom)} {segs 
     | or p hp => exact ⟨altOK_cons_kw _ _ rfl ih1, fun _ _ _ _ b hb => by simp at hb; subst hb; rfl⟩
     | lpar p hp => exact ⟨altOK_cons_kw _ _ rfl ih1, fun _ _ _ _ b hb => by simp at hb; subst hb; rfl⟩
     | rpar p hp => exact ⟨altOK_cons_kw _ _ rfl ih1, fun _ _ _ _ b hb => by simp at hb; subst hb; rfl⟩
-    | lic s g hg ho =>
+    | lic s sg ho =>
       exact ⟨altOK_head_kw _ _ (hhead rfl) ih1, fun t' r h hns => by simp at h; rw [← h.1] at hns; simp [isSymTok] at hns⟩
-    | withE l e gl pw ge hgl hge hol hpw hoe =>
+    | withE l e sgl pw sge hol hpw hoe =>
       refine ⟨?_, fun t' r h hns => by simp at h; rw [← h.1] at hns; simp [isSymTok] at hns⟩
       simp only [List.cons_append, List.nil_append]
       exact altOK_head_kw _ _ (by intro b hb; simp at hb; subst hb; rfl)
@@ -279,13 +284,13 @@ theorem within_of_table (c : Cls) (T : Table) (hop : OpWordFree c T) (ts : List 
       have := hop a ha w (by rw [← haw, hqw]; exact hw) hkw
       rw [← haw, hqw] at this
       rw [this] at h2; simp at h2
+  have hlast : c.fold p'.text ∈ q := last_mem_of_suffix_snoc _ q _ (by simpa [foldsOf] using hsuf) hqne
   -- the match does not reach back beyond the segment
   have hbound : q.length ≤ g1.length + 1 := by
     rcases Nat.lt_or_ge (g1.length + 1) q.length with hlt | hge
     · exfalso
       have h2 : 2 ≤ q.length := by omega
-      have hlast : c.fold p'.text ∈ q := last_mem_of_suffix_snoc _ q _ (by simpa [foldsOf] using hsuf) hqne
-      rcases hcur with ⟨pz, kz, heq, hfold⟩ | ⟨g, s, heq, _, _⟩
+      rcases hcur with ⟨pz, kz, heq, hfold⟩ | ⟨g, s, heq, _, _⟩ | ⟨g, heq, _, hunk⟩
       · -- the segment is a keyword: its word would be in the name
         have hg : g1 ++ p' :: g2 = [pz] := by simpa using congrArg Prod.fst heq
         have : p' = pz := by
@@ -311,7 +316,7 @@ theorem within_of_table (c : Cls) (T : Table) (hop : OpWordFree c T) (ts : List 
           cases hh : isNameSeg sgz with
           | false => rfl
           | true => exact absurd ⟨hh, by simp [isNameSeg, ho]⟩ this
-        rcases hshape sgz (by rw [hsegs, hS1']; simp) with ⟨pz, kz, hz, hzf⟩ | ⟨gz, sz, hz, _, _⟩
+        rcases hshape sgz (by rw [hsegs, hS1']; simp) with ⟨pz, kz, hz, hzf⟩ | ⟨gz, sz, hz, _, _⟩ | ⟨gz, hz, _, _⟩
         · have hzq : c.fold pz.text ∈ q := by
             apply mem_of_long_suffix (foldsOf c (segPieces S1')) (foldsOf c (g1 ++ [p'])) q _
             · have : pre ++ [p'] = segPieces S1' ++ pz :: (g1 ++ [p']) := by
@@ -322,6 +327,10 @@ theorem within_of_table (c : Cls) (T : Table) (hop : OpWordFree c T) (ts : List 
           have := hnokw h2 _ hzq
           rw [hzf, kw_spelling_keyword] at this; cases this
         · rw [hz] at hzn; simp [isNameSeg] at hzn
+        · rw [hz] at hzn; simp [isNameSeg] at hzn
+      · -- a run of unknown words: none of them is a word of a stored name
+        have hg : g1 ++ p' :: g2 = g := by simpa using congrArg Prod.fst heq
+        exact hunk p' (by rw [← hg]; simp) a ha (by rw [← haw, hqw]; exact hlast)
     · exact hge
   -- so the match starts inside the segment
   refine ⟨(g1 ++ p' :: g2, o), by rw [hsegs]; simp, p0, ?_, p', by simp, hp0s.symm, h1⟩
@@ -336,6 +345,190 @@ theorem within_of_table (c : Cls) (T : Table) (hop : OpWordFree c T) (ts : List 
   · exact Or.inl h
   · exact Or.inr (Or.inl h)
 
+/-! ### the words the automaton knows are words of stored names -/
+
+theorem addD_known (c : Cls) (t : Trie TVal) (name : Str) (v : TVal) (w : Word) (h : (t.addD c name v).known.contains w = true) :
+    t.known.contains w = true ∨ w ∈ wordsOf c name := by
+  unfold Trie.addD Trie.add at h
+  split at h
+  · next t' hadd =>
+    split at hadd
+    · cases hadd
+    · split at hadd
+      · simp at hadd; subst hadd; exact Or.inl h
+      · simp only at hadd
+        split at hadd
+        · simp at hadd; subst hadd; exact Or.inl h
+        · simp at hadd; subst hadd
+          simp only at h
+          exact (AC.addKnown_mem _ _ w).mp h
+  · exact Or.inl h
+
+theorem addAll_known (c : Cls) (adds : List (Str × TVal)) : ∀ (t : Trie TVal) (w : Word),
+    (addAll c t adds).known.contains w = true → t.known.contains w = true ∨ ∃ a ∈ adds, w ∈ wordsOf c a.1 := by
+  induction adds with
+  | nil => intro t w h; exact Or.inl h
+  | cons a rest ih =>
+    intro t w h
+    have : addAll c t (a :: rest) = addAll c (t.addD c a.1 a.2) rest := rfl
+    rw [this] at h
+    rcases ih _ w h with h1 | ⟨b, hb, h1⟩
+    · rcases addD_known c t a.1 a.2 w h1 with h2 | h2
+      · exact Or.inl h2
+      · exact Or.inr ⟨a, by simp, h2⟩
+    · exact Or.inr ⟨b, List.mem_cons_of_mem _ hb, h1⟩
+
+theorem buildTrie_known (c : Cls) (T : Table) (w : Word) (h : (buildTrie c T).known.contains w = true) :
+    ∃ a ∈ addsOf c T, w ∈ wordsOf c a.1 := by
+  rw [buildTrie_adds] at h
+  rcases addAll_known c (addsOf c T) Trie.empty w (by simpa [Trie.makeAutomaton] using h) with h1 | h1
+  · simp [Trie.empty] at h1
+  · exact h1
+
+/-! ### merging the unknown words of a segmented text -/
+
+theorem segToks_single (text : Str) (g : List Piece) (v : TVal) (hg : g ≠ []) :
+    ∃ k : Tok TVal, segToks text (g, some v) = [k] ∧ k.val = some v := by
+  obtain ⟨f, hf⟩ : ∃ f, g.head? = some f := by
+    cases g with
+    | nil => exact absurd rfl hg
+    | cons a r => exact ⟨a, rfl⟩
+  obtain ⟨l, hl⟩ : ∃ l, g.getLast? = some l := ⟨g.getLast hg, List.getLast?_eq_some_getLast hg⟩
+  exact ⟨⟨f.start, l.stop, slice text f.start l.stop, some v⟩, by simp [segToks, hf, hl], rfl⟩
+
+/-- the run accumulated by `build_symbols_from_unknown_tokens` after a list of unmatched tokens -/
+def accRun : Option (Nat × Nat × List Str) → List STok → Option (Nat × Nat × List Str)
+  | acc, [] => acc
+  | none, t :: ts => accRun (some (t.s, t.e, [t.str])) ts
+  | some (st, _, strs), t :: ts => accRun (some (st, t.e, strs ++ [t.str])) ts
+
+theorem mergeUnknown_run (c : Cls) : ∀ (us : List STok) (acc : Option (Nat × Nat × List Str)) (R : List STok),
+    (∀ u ∈ us, u.val = .none) → mergeUnknown c acc (us ++ R) = mergeUnknown c (accRun acc us) R
+  | [], _, _, _ => rfl
+  | u :: us, acc, R, h => by
+    have hu := h u (by simp)
+    have ih := fun acc' => mergeUnknown_run c us acc' R (fun x hx => h x (List.mem_cons_of_mem _ hx))
+    cases acc with
+    | none =>
+      rw [List.cons_append, mergeUnknown.eq_def]; simp only [hu]
+      exact ih _
+    | some a =>
+      obtain ⟨st, en, strs⟩ := a
+      rw [List.cons_append, mergeUnknown.eq_def]; simp only [hu]
+      exact ih _
+
+theorem accRun_strs : ∀ (us : List STok) (st en : Nat) (strs : List Str),
+    ∃ en', accRun (some (st, en, strs)) us = some (st, en', strs ++ us.map (·.str))
+  | [], st, en, strs => ⟨en, by simp [accRun]⟩
+  | u :: us, st, en, strs => by
+    obtain ⟨en', h⟩ := accRun_strs us st u.e (strs ++ [u.str])
+    exact ⟨en', by simp [accRun, h, List.append_assoc]⟩
+
+theorem accRun_none (us : List STok) (hne : us ≠ []) : ∃ st en, accRun none us = some (st, en, us.map (·.str)) := by
+  cases us with
+  | nil => exact absurd rfl hne
+  | cons u us =>
+    obtain ⟨en', h⟩ := accRun_strs us u.s u.e [u.str]
+    exact ⟨u.s, en', by simp [accRun, h]⟩
+
+/-- what one segment becomes after merging: the value stored for a name, the unknown license spelled by
+    a run of unknown words -/
+def SegMerged (c : Cls) (sg : Seg TVal) (v : SVal) : Prop :=
+  match sg.2 with
+  | some (.kw k) => v = .kw k
+  | some (.sym s) => v = .sym s
+  | none => ∃ k, normKey c (joinStr [SPACE] (sg.1.map (·.text))) = some k ∧ v = .sym ⟨k, false⟩
+
+theorem merge_segs (c : Cls) (text : Str) : ∀ (segs : List (Seg TVal)) (vals : List SVal),
+    (∀ sg ∈ segs, sg.1 ≠ [] ∧ ∀ p ∈ sg.1, p ∈ pieces c text) → AltOK segs → F2 (SegMerged c) segs vals →
+    ∃ L, mergeUnknown c none ((segs.flatMap (segToks text)).map ofTok) = .ok L ∧ L.map (·.val) = vals
+  | [], vals, _, _, h => by cases h; exact ⟨[], by simp [mergeUnknown, flushUnknown], rfl⟩
+  | sg :: rest, vals, hne, halt, h => by
+    cases h with
+    | @cons _ v _ vs hv hrest =>
+    have halt' : AltOK rest := by cases rest <;> first | trivial | exact halt.2
+    obtain ⟨L, hL, hLv⟩ := merge_segs c text rest vs (fun s hs => hne s (List.mem_cons_of_mem _ hs)) halt' hrest
+    obtain ⟨g, o⟩ := sg
+    have hg := (hne (g, o) (by simp)).1
+    rw [List.flatMap_cons, List.map_append]
+    cases o with
+    | some tv =>
+      obtain ⟨k, hk, hkv⟩ := segToks_single text g tv hg
+      have hval : (ofTok k).val = v := by
+        simp only [SegMerged] at hv
+        cases tv with
+        | kw kk => simp [ofTok, hkv, hv]
+        | sym ss => simp [ofTok, hkv, hv]
+      have hkn : (ofTok k).val ≠ .none := by
+        rw [hval]; simp only [SegMerged] at hv
+        cases tv <;> simp [hv]
+      rw [hk]
+      simp only [List.map_cons, List.map_nil, List.cons_append, List.nil_append]
+      rw [mergeUnknown_cons_known c none _ _ hkn, hL]
+      exact ⟨ofTok k :: L, by simp [flushUnknown], by simp [hval, hLv]⟩
+    | none =>
+      simp only [SegMerged] at hv
+      obtain ⟨key, hkey, rfl⟩ := hv
+      -- the tokens of the run are unmatched; what follows starts with a matched token or is empty
+      have hus : ∀ u ∈ (segToks text (g, (none : Option TVal))).map ofTok, u.val = .none := by
+        intro u hu
+        simp only [segToks, List.map_map, List.mem_map] at hu
+        obtain ⟨p, _, rfl⟩ := hu
+        rfl
+      rw [mergeUnknown_run c _ none _ hus]
+      -- the accumulated run
+      have hstrs : ((segToks text (g, (none : Option TVal))).map ofTok).map (·.str) = g.map (·.text) := by
+        simp only [segToks, List.map_map]
+        apply List.map_congr_left
+        intro p hp
+        simp only [Function.comp, ofTok]
+        exact piece_slice c text p ((hne (g, none) (by simp)).2 p hp)
+      obtain ⟨p0, g', hgc⟩ : ∃ p0 g', g = p0 :: g' := by
+        cases g with
+        | nil => exact absurd rfl hg
+        | cons a r => exact ⟨a, r, rfl⟩
+      have hacc : ∃ st en, accRun none ((segToks text (g, (none : Option TVal))).map ofTok) = some (st, en, g.map (·.text)) := by
+        have hne' : (segToks text (g, (none : Option TVal))).map ofTok ≠ [] := by
+          subst hgc; simp [segToks]
+        obtain ⟨st, en, h'⟩ := accRun_none _ hne'
+        exact ⟨st, en, by rw [h', hstrs]⟩
+      obtain ⟨st, en, hacc⟩ := hacc
+      rw [hacc]
+      have hflush : flushUnknown c (some (st, en, g.map (·.text))) = .ok [⟨st, en, joinStr [SPACE] (g.map (·.text)), .sym ⟨key, false⟩⟩] := by
+        simp [flushUnknown, mkUnknown, hkey, Except.map]
+      cases rest with
+      | nil =>
+        simp only [List.flatMap_nil, List.map_nil] at hL ⊢
+        simp only [mergeUnknown, flushUnknown] at hL
+        simp only [Except.ok.injEq] at hL
+        subst hL
+        cases hrest
+        exact ⟨_, by rw [mergeUnknown.eq_def]; exact hflush, by simp⟩
+      | cons sg2 rest2 =>
+        -- the next segment is a keyword: its token is matched
+        have hsg2 : isNameSeg sg2 = false := by
+          cases hh : isNameSeg sg2 with
+          | false => rfl
+          | true => exact absurd ⟨rfl, hh⟩ halt.1
+        obtain ⟨g2, o2⟩ := sg2
+        cases o2 with
+        | none => simp [isNameSeg] at hsg2
+        | some tv2 =>
+          obtain ⟨k2, hk2, hkv2⟩ := segToks_single text g2 tv2 (hne (g2, some tv2) (by simp)).1
+          have hkn2 : (ofTok k2).val ≠ .none := by cases tv2 <;> simp [ofTok, hkv2]
+          rw [List.flatMap_cons, List.map_append, hk2] at hL ⊢
+          simp only [List.map_cons, List.map_nil, List.cons_append, List.nil_append] at hL ⊢
+          rw [mergeUnknown_cons_known c none _ _ hkn2] at hL
+          rw [mergeUnknown_cons_known c _ _ _ hkn2, hflush]
+          simp only [flushUnknown] at hL
+          cases hm : mergeUnknown c none ((rest2.flatMap (segToks text)).map ofTok) with
+          | error e => rw [hm] at hL; simp at hL
+          | ok r =>
+            rw [hm] at hL
+            simp only [List.nil_append, Except.ok.injEq] at hL
+            subst hL
+            exact ⟨_, rfl, by simp [hLv]⟩
+
 /-! ### the text of a spelled skeleton parses to what the skeleton parses to -/
 
 /-- no name of a license reads as a bare operator word or parenthesis -/
@@ -348,45 +541,36 @@ theorem kw_ownedV (c : Cls) (hc : ClsOK c) (T : Table) (hkw : KwOwned c T) (k : 
   simp only [List.mem_map]
   exact ⟨k, by cases k <;> simp [KEYWORDS], rfl⟩
 
-theorem segToks_single (text : Str) (g : List Piece) (v : TVal) (hg : g ≠ []) :
-    ∃ k : Tok TVal, segToks text (g, some v) = [k] ∧ k.val = some v := by
-  obtain ⟨f, hf⟩ : ∃ f, g.head? = some f := by
-    cases g with
-    | nil => exact absurd rfl hg
-    | cons a r => exact ⟨a, rfl⟩
-  obtain ⟨l, hl⟩ : ∃ l, g.getLast? = some l := ⟨g.getLast hg, List.getLast?_eq_some_getLast hg⟩
-  exact ⟨⟨f.start, l.stop, slice text f.start l.stop, some v⟩, by simp [segToks, hf, hl], rfl⟩
-
-theorem segFor_vals (c : Cls) (T : Table) (text : Str) (t : BP.Tok Atom) (sgs : List (Seg TVal)) (h : SegFor c T t sgs) :
-    ((sgs.flatMap (segToks text)).map ofTok).map (·.val) = expandTok t := by
+theorem operandSeg_merged (c : Cls) (T : Table) (s : Sym) (sg : Seg TVal) (h : OperandSeg c T s sg) : SegMerged c sg (.sym s) := by
   cases h with
-  | and p hp => simp [segToks, ofTok, expandTok]
-  | or p hp => simp [segToks, ofTok, expandTok]
-  | lpar p hp => simp [segToks, ofTok, expandTok]
-  | rpar p hp => simp [segToks, ofTok, expandTok]
-  | lic s g hg ho =>
-    obtain ⟨k, hk, hv⟩ := segToks_single text g (.sym s) hg
-    simp [hk, ofTok, hv, expandTok]
-  | withE l e gl pw ge hgl hge hol hpw hoe =>
-    obtain ⟨k1, hk1, hv1⟩ := segToks_single text gl (.sym l) hgl
-    obtain ⟨k2, hk2, hv2⟩ := segToks_single text ge (.sym e) hge
-    have hkw : segToks text ([pw], some (TVal.kw Kw.with)) =
-        [⟨pw.start, pw.stop, slice text pw.start pw.stop, some (TVal.kw Kw.with)⟩] := by simp [segToks]
-    simp only [List.flatMap_cons, List.flatMap_nil, List.append_nil, hk1, hk2, hkw, List.cons_append, List.nil_append,
-      List.map_cons, List.map_nil, ofTok, hv1, hv2, expandTok]
+  | known g _ _ => simp [SegMerged]
+  | unknown g _ _ hk hx =>
+    simp only [SegMerged]
+    refine ⟨s.key, hk, ?_⟩
+    cases s; simp_all
 
-theorem segsFor_vals (c : Cls) (T : Table) (text : Str) {ts : List (BP.Tok Atom)} {segs : List (Seg TVal)} (h : SegsFor c T ts segs) :
-    ((segs.flatMap (segToks text)).map ofTok).map (·.val) = ts.flatMap expandTok := by
+theorem segFor_merged (c : Cls) (T : Table) (t : BP.Tok Atom) (sgs : List (Seg TVal)) (h : SegFor c T t sgs) :
+    F2 (SegMerged c) sgs (expandTok t) := by
+  cases h with
+  | and p hp => exact F2.cons (by simp [SegMerged]) F2.nil
+  | or p hp => exact F2.cons (by simp [SegMerged]) F2.nil
+  | lpar p hp => exact F2.cons (by simp [SegMerged]) F2.nil
+  | rpar p hp => exact F2.cons (by simp [SegMerged]) F2.nil
+  | lic s sg ho => exact F2.cons (operandSeg_merged c T s sg ho) F2.nil
+  | withE l e sgl pw sge hol hpw hoe =>
+    exact F2.cons (operandSeg_merged c T l sgl hol) (F2.cons (by simp [SegMerged]) (F2.cons (operandSeg_merged c T e sge hoe) F2.nil))
+
+theorem segsFor_merged (c : Cls) (T : Table) {ts : List (BP.Tok Atom)} {segs : List (Seg TVal)} (h : SegsFor c T ts segs) :
+    F2 (SegMerged c) segs (ts.flatMap expandTok) := by
   induction h with
-  | nil => simp
-  | cons h1 _ ih =>
-    rw [List.flatMap_append, List.map_append, List.map_append, segFor_vals c T text _ _ h1, ih, List.flatMap_cons]
+  | nil => exact F2.nil
+  | cons h1 _ ih => rw [List.flatMap_cons]; exact F2.append (segFor_merged c T _ _ h1) ih
 
 /-- **an expression written with any names of its licenses**: for a table in which no stored name of
     several words contains an operator word or a parenthesis and no name reads as a bare operator, a text
     whose words fall into the segments of a skeleton — operators and parentheses in any letter case,
-    every license as any of its stored names in any case and spacing — parses to what the skeleton
-    parses to -/
+    every license as any of its stored names in any case and spacing, an unknown license as words that
+    occur in no stored name — parses to what the skeleton parses to -/
 theorem parse_spelled (c : Cls) (hc : ClsOK c) (T : Table) (hop : OpWordFree c T) (hkw : KwOwned c T)
     (ts : List (BP.Tok Atom)) (segs : List (Seg TVal)) (hs : SegsFor c T ts segs) (text : Str)
     (hcov : segPieces segs = wordPieces c text) (e : Expr Atom) (hparse : BP.parse ts = .ok e) :
@@ -394,14 +578,16 @@ theorem parse_spelled (c : Cls) (hc : ClsOK c) (T : Table) (hop : OpWordFree c T
   have hn := noSymSym_of_pairs _ (BP.parse_pairs _ e hparse)
   have hkn := buildTrie_knownOK c T
   have hshape := segsFor_shape c T hs
+  have hsegne : ∀ sg ∈ segs, sg.1 ≠ [] := by
+    intro sg hsg
+    rcases hshape sg hsg with ⟨p, k, rfl, _⟩ | ⟨g, s, rfl, hg, _⟩ | ⟨g, rfl, hg, _⟩
+    · simp
+    · exact hg
+    · exact hg
   have hok : SegsOK c (buildTrie c T) text segs := by
-    refine ⟨hcov, ?_, ?_, ?_, within_of_table c T hop ts segs hs hn text hcov⟩
-    · intro sg hsg
-      rcases hshape sg hsg with ⟨p, k, rfl, _⟩ | ⟨g, s, rfl, hg, _⟩
-      · simp
-      · exact hg
+    refine ⟨hcov, hsegne, ?_, ?_, within_of_table c T hop ts segs hs hn text hcov⟩
     · intro g v hsg
-      rcases hshape _ hsg with ⟨p, k, heq, hfold⟩ | ⟨g', s, heq, hg, hown⟩
+      rcases hshape _ hsg with ⟨p, k, heq, hfold⟩ | ⟨g', s, heq, hg, hown⟩ | ⟨g', heq, _, _⟩
       · simp only [Prod.mk.injEq, Option.some.injEq] at heq
         obtain ⟨rfl, rfl⟩ := heq
         have := buildTrie_lookupV c T [k.spelling] (by simp) (.kw k) (kw_ownedV c hc T hkw k)
@@ -409,26 +595,31 @@ theorem parse_spelled (c : Cls) (hc : ClsOK c) (T : Table) (hop : OpWordFree c T
       · simp only [Prod.mk.injEq, Option.some.injEq] at heq
         obtain ⟨rfl, rfl⟩ := heq
         exact buildTrie_lookupV c T _ (by simpa [foldsOf] using hg) _ hown
-    · intro g hsg
-      rcases hshape _ hsg with ⟨p, k, heq, _⟩ | ⟨g', s, heq, _, _⟩ <;> simp at heq
+      · simp at heq
+    · intro g hsg p hp
+      rcases hshape _ hsg with ⟨p', k, heq, _⟩ | ⟨g', s, heq, _, _⟩ | ⟨g', heq, _, hunk⟩
+      · simp at heq
+      · simp at heq
+      · simp only [Prod.mk.injEq, and_true] at heq
+        subst heq
+        cases hkc : (buildTrie c T).known.contains (c.fold p.text) with
+        | false => rfl
+        | true =>
+          obtain ⟨a, ha, hwa⟩ := buildTrie_known c T _ hkc
+          exact absurd hwa (hunk p hp a ha)
   have htok := tokenize_segments c (buildTrie c T) text segs hkn hok
-  have hvals := segsFor_vals c T text hs
-  -- the later stages
-  obtain ⟨R, P, hg, hp, hts⟩ := group_skeleton c ts ((segs.flatMap (segToks text)).map ofTok) hn hvals
-  have hknown : ∀ t ∈ (segs.flatMap (segToks text)).map ofTok, t.val ≠ SVal.none := by
-    intro t ht hnone
-    have : SVal.none ∈ ts.flatMap expandTok := by
-      rw [← hvals]; exact List.mem_map.mpr ⟨t, ht, hnone⟩
-    simp only [List.mem_flatMap] at this
-    obtain ⟨u, _, hu⟩ := this
-    cases u with
-    | sym a => cases a <;> simp [expandTok] at hu
-    | _ => simp [expandTok] at hu
+  -- merging, grouping, hand-over
+  have hpieces : ∀ sg ∈ segs, sg.1 ≠ [] ∧ ∀ p ∈ sg.1, p ∈ pieces c text := by
+    intro sg hsg
+    refine ⟨hsegne sg hsg, fun p hp => ?_⟩
+    have : p ∈ wordPieces c text := by rw [← hcov]; exact (mem_segPieces segs p).mpr ⟨sg, hsg, hp⟩
+    exact (List.mem_filter.mp this).1
+  obtain ⟨L, hL, hLv⟩ := merge_segs c text segs _ hpieces (segsFor_alt c T hs hn).1 (segsFor_merged c T hs)
+  obtain ⟨R, P, hg, hp, hts⟩ := group_skeleton c ts L hn hLv
   have hl : ltokW c T (buildTrie c T) false false text = .ok P := by
     unfold ltokW rawTokensW advancedTokensW
     simp only [Bool.false_eq_true, ↓reduceIte, htok]
-    have hm := mergeUnknown_known c _ hknown
-    simp [bind, Except.bind, hm, hg, hp]
+    simp [bind, Except.bind, hL, hg, hp]
   -- the text is not blank
   have hne : wordsOf c text ≠ [] := by
     intro h0
@@ -437,11 +628,19 @@ theorem parse_spelled (c : Cls) (hc : ClsOK c) (T : Table) (hop : OpWordFree c T
     rw [← hcov] at hw
     cases hs with
     | nil => exact hts0 rfl
-    | cons h1 _ =>
+    | @cons t ts' sgs rest h1 _ =>
       rw [segPieces_append] at hw
-      have := List.append_eq_nil_iff.mp hw
-      cases h1 <;> simp [segPieces] at this
-      all_goals simp_all
+      have hnil := (List.append_eq_nil_iff.mp hw).1
+      have : ∃ sg, sg ∈ sgs := by cases h1 <;> exact ⟨_, List.mem_cons_self⟩
+      obtain ⟨sg, hsg⟩ := this
+      have h1' := hsegne sg (List.mem_append_left _ hsg)
+      have : sg.1 = [] := by
+        have hsub : ∀ p ∈ sg.1, p ∈ segPieces sgs := fun p hp => (mem_segPieces sgs p).mpr ⟨sg, hsg, hp⟩
+        rw [hnil] at hsub
+        cases hh : sg.1 with
+        | nil => rfl
+        | cons a r => exact absurd (hsub a (by rw [hh]; simp)) (by simp)
+      exact h1' this
   have hnb : (text.isEmpty || isBlank c text) = false := by
     rw [Bool.or_eq_false_iff]
     constructor
